@@ -26,8 +26,8 @@ fn main() {
         thread_stress(&mut s, &mut r, k);
     }
     // add / insert* of a bar that is ALREADY a member: documented as "no effect" (multi.rs, doc
-    // comments of add/insert/insert_from_back/insert_before/insert_after); oracle only (the model
-    // excludes these calls by `op_ok`, see docs/C02.md "Findings")
+    // comments of add/insert/insert_from_back/insert_before/insert_after; fixed by bee77c9); order
+    // oracle written from the doc comments, real API (the sys cases above contain re-adds as well)
     for sc in readd_corpus() {
         readd_case(&mut s, &sc);
     }
@@ -42,12 +42,16 @@ fn main() {
     s.finish();
 }
 
-/// Finding candidate `insert-relative-to-concurrently-removed-bar` (Coq:
-/// C02_insert_sections_stale_index_refuted; candidate fix docs/patches/C02-insert-ref-index-race.diff).
-/// Not an open entry of known_findings.json yet, and the race is rarely won in the optimised
-/// harness build (about once in 10^5 rounds; 5-15 times in 2*10^4 rounds in the unoptimised test
-/// build of the demo): the oracle counts the outcomes (`unregistered-finding:...`), reports nothing.
-const REPORT_STALE_INDEX_FINDING: bool = false;
+/// Open finding `insert-relative-to-concurrently-removed-bar` (known_findings.json; Coq:
+/// C02_insert_sections_stale_index_refuted; candidate fix docs/patches/C02-insert-ref-index-race.diff,
+/// not applied).  It is a real-thread race that the optimised harness build wins about once in 10^5
+/// rounds (5-15 times in 2*10^4 rounds in the unoptimised test build of the demo): the class is
+/// reported only when one of the two race outcomes has actually been OBSERVED in this run, i.e. on
+/// a predicate of the observation: (M) insert_after returned normally and the screen shows x below
+/// y although x was inserted after a; (P) insert_after panicked with `Option::unwrap()` on `None`
+/// AND the MultiState lock is poisoned afterwards (a later println panics).  A run in which the
+/// race is never won reports nothing.
+const REPORT_STALE_INDEX_FINDING: bool = true;
 
 /// Thread 1: `insert_after(&a, x)`; thread 2: `remove(&a)` (even rounds: followed by `add(y)`).
 /// Every sequential order of these calls either shows x directly after a (then a is removed) or
@@ -78,7 +82,7 @@ fn stale_index_race(s: &mut Session, rounds: u32) {
             let (mp, a, x, gate) = (mp.clone(), a.clone(), x.clone(), gate.clone());
             std::thread::spawn(move || {
                 gate.wait();
-                catch(|| drop(mp.insert_after(&a, x))).is_ok()
+                catch(|| drop(mp.insert_after(&a, x)))
             })
         };
         let t2 = {
@@ -94,7 +98,8 @@ fn stale_index_race(s: &mut Session, rounds: u32) {
                 .is_ok()
             })
         };
-        let ok1 = t1.join().unwrap_or(false);
+        let r1 = t1.join().unwrap_or_else(|_| Err("thread 1 died".into()));
+        let ok1 = r1.is_ok();
         let _ = t2.join();
         let usable = catch(|| {
             x.tick();
@@ -102,7 +107,12 @@ fn stale_index_race(s: &mut Session, rounds: u32) {
             mp.println("log").is_ok()
         });
         match usable {
-            Err(_) => poisoned += 1,
+            // (P): the unwrap inside MultiState::insert panicked with the write lock held
+            Err(e) if !ok1 && r1.as_ref().err().map_or(false, |m| m.contains("unwrap()") && m.contains("None")) && e.contains("Poison") => poisoned += 1,
+            Err(e) => {
+                s.fail("stale-index-race-unexpected-panic", format!("after the race a call on the MultiProgress panicked: {e}; insert_after: {r1:?}"), format!("stale-index race round {round}"));
+                other += 1;
+            }
             Ok(_) => {
                 let mut vt = Vt::new(20, 50);
                 vt.feed(&spy.take());
@@ -132,13 +142,12 @@ fn stale_index_race(s: &mut Session, rounds: u32) {
     s.oracle_only(desc, true);
 }
 
-/// Re-adding a member leaves its old slot behind as an empty, never reaped entry of the ordering
-/// (`internalize` allocates a new slot and re-points the bar): every later index-based insert
-/// counts the ghost, so the visible order differs from the documented one.  Candidate fix:
-/// docs/patches/C02-readd-no-effect.diff.  Until the class `member-added-twice-leaves-ghost-slot`
-/// is an open entry of known_findings.json (not this property's file) or the fix is applied, the
-/// oracle only counts these failures (`unregistered-finding:...` in the input distribution).
-const REPORT_READD_FINDING: bool = false;
+/// Re-adding a member used to leave its old slot behind as an empty, never reaped entry of the
+/// ordering (`internalize` allocated a new slot and re-pointed the bar): every later index-based
+/// insert counted the ghost, so the visible order differed from the documented one.  FIXED by
+/// /repo bee77c9 ("adding a progress bar that is already a member of the MultiProgress has no
+/// effect"); the family stays as a regression check: class `member-added-twice-leaves-ghost-slot`
+/// is a VIOLATION if it reappears.
 
 #[derive(Clone, Debug)]
 enum SOp {
@@ -277,11 +286,7 @@ fn readd_case(s: &mut Session, script: &[SOp]) {
         let detail = format!("visible order {:?}, documented order {:?}; rows {rows:?}", got.iter().map(|b| IDS[*b]).collect::<Vec<_>>(), want.iter().map(|b| IDS[*b]).collect::<Vec<_>>());
         if readd {
             // narrow class: the script adds/inserts a bar that is a member at that moment
-            if REPORT_READD_FINDING {
-                s.fail("member-added-twice-leaves-ghost-slot", detail, desc.clone());
-            } else {
-                s.count("unregistered-finding:member-added-twice-leaves-ghost-slot");
-            }
+            s.fail("member-added-twice-leaves-ghost-slot", detail, desc.clone());
         } else {
             s.fail("insert-order-mismatch", detail, desc.clone());
         }
